@@ -76,7 +76,7 @@ func NewConstraintFromRule( //nolint:gocyclo // For now it's okay.
 	case "nullable":
 		return NewNullable(ruleValue)
 	case "regex":
-		return NewRegex(ruleValue)
+		return newRegexRule(ruleValue)
 	case "const":
 		return NewConst(ruleValue, nodeValue)
 	}
